@@ -50,12 +50,6 @@ def get_temperature_driving_forces(
     delta_T1_raw = t_h1 - t_c1
     delta_T2_raw = t_h2 - t_c2
 
-    discontinuities = _collect_discontinuities(H_hot, H_cold)
-    if discontinuities:
-        for idx in range(len(delta_T2_raw) - 2, -1, -1):
-            if _is_discontinuity(h_end[idx], discontinuities):
-                delta_T2_raw[idx] = min(delta_T2_raw[idx], delta_T2_raw[idx + 1])
-
     delta_T1 = delta_T1_raw - min_dT
     delta_T2 = delta_T2_raw - min_dT
 
